@@ -163,6 +163,8 @@ def seekLoop (P : Params) (f : File) (tsOf : Bytes → Int) (target : Int) :
 def seekTS (P : Params) (f : File) (tsOf : Bytes → Int) (s : QState) (target : Int) :
     QState × Except Err (Nat × Nat) :=
   let s0 := { s with hasBuf := false }
+  -- `if fileInfo.Size() == 0 { return 0, 0, errTSTooEarly }` (repair daf1642)
+  if f.size = 0 then (s0, .error .tooEarly) else
   match seekLoop P f tsOf target maxDepth 0 f.size ((f.size - 0) / 2) none 0 with
   | .error e => (s0, .error e)
   | .ok (_, stop, depth) => ({ s0 with position := stop }, .ok (stop, depth))
